@@ -86,7 +86,31 @@ fn cmd_labels(max: u32) {
         };
         if !ok && bad.len() < 6 { bad.push(format!("{{\"what\":\"label tree dictionary\",\"range0\":{:?},\"range3\":{:?},\"nums\":{}}}", js(&format!("{:?}", ea)), js(&format!("{:?}", eb)), js(&format!("{:?}", d.get("Nums"))))); }
     } }
-    println!("{{\"cmd\":\"labels\",\"bound\":\"n in 0..={max} for decimal/roman; all ordered pairs of 60 label definitions (6 styles x 5 prefixes x 2 starts) at pages 0 and 3\",\"evaluated\":{},\"disagreements\":[{}]}}", evaluated, bad.join(","));
+    // histories on ONE tree: ranges added and labels looked up in any interleaving (a lookup must see every range added before it)
+    {
+        #[derive(Clone, Copy, Debug)] enum Op { Add(u32, u8), Get(u32) }
+        let mut ops: Vec<Op> = vec![];
+        for k in [0u32, 3, 5] { for st in 0..2u8 { ops.push(Op::Add(k, st)); } }
+        for p in [0u32, 2, 4, 6] { ops.push(Op::Get(p)); }
+        let hist_len = 4usize;
+        for n in 0..ops.len().pow(hist_len as u32) {
+            let mut m = n; let mut h = vec![]; for _ in 0..hist_len { h.push(ops[m % ops.len()]); m /= ops.len(); }
+            evaluated += 1;
+            let mut t = PageLabelTree::new(); let mut model: std::collections::BTreeMap<u32, (u8, u32)> = Default::default(); let mut ok = true; let mut note = String::new();
+            for (i, op) in h.iter().enumerate() {
+                match *op {
+                    Op::Add(k, st) => { let style = if st == 0 { PageLabelStyle::DecimalArabic } else { PageLabelStyle::LowercaseRoman }; t.add_range(k, PageLabel::new(style).starting_at(1 + i as u32)); model.insert(k, (st, 1 + i as u32)); }
+                    Op::Get(p) => {
+                        let want = model.range(..=p).next_back().map(|(k, (st, start))| { let v = start + (p - k); if *st == 0 { v.to_string() } else { roman_ref(v, false) } });
+                        let got = t.get_label(p);
+                        if got != want { ok = false; note = format!("get_label({p}) = {:?}, expected {:?}", got, want); break; }
+                    }
+                }
+            }
+            if !ok && bad.len() < 6 { bad.push(format!("{{\"what\":\"history on one label tree\",\"history\":{},\"problem\":{}}}", js(&format!("{:?}", h)), js(&note))); }
+        }
+    }
+    println!("{{\"cmd\":\"labels\",\"bound\":\"n in 0..={max} for decimal/roman; all ordered pairs of 60 label definitions (6 styles x 5 prefixes x 2 starts) at pages 0 and 3; all histories of 4 add_range/get_label operations on one tree\",\"evaluated\":{},\"disagreements\":[{}]}}", evaluated, bad.join(","));
 }
 
 fn annexd_free(_enc: &str, cp: u32) -> bool { cp < 0x20 || (0x7F..=0x9F).contains(&cp) || cp == 0xA0 || cp == 0xAD }
